@@ -226,6 +226,7 @@ type prog struct {
 	ghost      map[string]*obj // last known state of keys whose current state is unknown (failed write) or a delete marker
 	marker     map[string]bool // key held a delete marker (versioning-enabled bucket)
 	hist       map[string]*keyHist
+	sigSuffix  string // context of the current verification (part of the signatures)
 }
 
 func (p *prog) c() *ev.Ctx { return p.w.c }
@@ -239,7 +240,7 @@ func (p *prog) cfgTag() string {
 }
 
 func (p *prog) sig(read, what string, o *obj) string {
-	return what + ":" + p.w.cf.store + ":" + o.enc + ":" + read + ":" + p.cfgTag()
+	return what + ":" + p.w.cf.store + ":" + o.enc + ":" + read + ":" + p.cfgTag() + p.sigSuffix
 }
 
 func (p *prog) logOp(format string, a ...any) {
@@ -454,6 +455,8 @@ func (p *prog) step() {
 		return
 	}
 	switch x := r.Intn(100); {
+	case x < 5:
+		p.opRefusedThenPut()
 	case x < 56:
 		p.opPut()
 	case x < 74:
@@ -588,6 +591,61 @@ func (p *prog) opPut() {
 	hs := genHdrSet(r)
 	g := r.Intn(2)
 	p.doPut(k, e, body, hs, g)
+}
+
+// opRefusedThenPut: an upload with a full set of headers, metadata and tags that the gateway refuses late (it asks
+// for a legal hold, which a bucket without object lock cannot give), followed by an acknowledged upload of the same
+// key with few or no attributes. Nothing of the refused request may show on the object.
+func (p *prog) opRefusedThenPut() {
+	r := p.r
+	k := p.pickKey()
+	g := r.Intn(2)
+	var hs *hdrSet
+	for i := 0; i < 20; i++ {
+		hs = genHdrSet(r)
+		if len(hs.meta) > 0 && (hs.ce != "" || hs.cd != "" || hs.cc != "") {
+			break
+		}
+	}
+	body := randBytes(r, 1+r.Intn(3000))
+	o := &obj{body: body, etag: `"` + s3c.MD5Hex(body) + `"`, enc: "refused-put", sizeClass: sizeClass(len(body))}
+	applyHdrs(o, hs)
+	req := &s3c.Req{Method: "PUT", Path: s3c.ObjPath(p.bucket, k.key), Body: body}
+	req.Header = append(p.wireHdrs(hs, true), [2]string{"X-Amz-Object-Lock-Legal-Hold", "ON"})
+	p.logOp("refused-put(legal hold without object lock) key=%q(%s) gw=%d hdrs=%s", clip(k.key, 80), k.class, g, o.hdrClass)
+	resp := p.w.client(g).Do(req)
+	p.c().Eval(1)
+	switch p.classify("put+legal-hold ["+k.class+"]", g, resp) {
+	case refused:
+		// whatever it may have left behind counts as a stale value of this key from now on
+		p.histOf(k.key).absorb(o)
+		stat("refused_uploads_followed_up", p.w.cf.name)
+	case failed:
+		p.histOf(k.key).absorb(o)
+		p.drop(k.key)
+		return
+	default:
+		// the bucket accepts legal holds: an ordinary acknowledged upload
+		p.install(k, o, g)
+		return
+	}
+	if _, exists := p.model[k.key]; exists {
+		// the previous object of the key must be unaffected by the refused request
+		p.sigSuffix = ":after-refused-upload"
+		p.verify(k.key)
+		p.sigSuffix = ""
+	}
+	few := &hdrSet{class: "m0,t0,c0"}
+	if r.Intn(3) == 0 {
+		few.ct, few.class = "text/plain", "m0,t0,c-some"
+	}
+	var e encT
+	for i := 0; i < 50; i++ {
+		if e = p.pickEnc(); e.mode != "presigned" {
+			break
+		}
+	}
+	p.doPut(k, e, randBytes(r, 1+r.Intn(3000)), few, r.Intn(2))
 }
 
 func (p *prog) doPut(k keyT, e encT, body []byte, hs *hdrSet, g int) {
